@@ -61,6 +61,9 @@ type subject struct {
 func runC09(c *core.Ctx) {
 	g := gen.New(c.R)
 	t := caseTree(c, g, 6)
+	if c.Case%8 == 6 && c.Case >= gen.SweepSize() {
+		t = repeatLayer(c, g, t)
+	}
 	coverTree(c, t)
 	if t.Depth() >= 3 || t.HasKind(gen.MultiKinds...) {
 		c.Nontrivial(t.Sig())
